@@ -271,3 +271,43 @@ class Findings(object):
 
     def summary(self, fid):
         return self.entries[fid].get('summary', fid)
+
+
+# ---------------------------------------------------------------------------
+# E2: level-synchronous breadth-first search over histories.
+# ---------------------------------------------------------------------------
+def bfs(expand_chunk, max_depth, rep, root=(), chunk=64, state_cap=None, on_level=None):
+    """expand_chunk(list_of_histories) -> (Report, [(child_history, key64), ...]) must be a module-level function.
+    A state is the history reaching it; children are deduplicated by key.  Returns dict with per-level counts
+    and whether a cap was hit (a capped level is never reported as exhaustive)."""
+    seen = set()
+    frontier = [tuple(root)]
+    levels = []
+    capped = False
+    r0, kids = expand_chunk([])        # convention: empty list -> returns root key as single child (root, key)
+    rep.merge(r0)
+    for h, k in kids:
+        seen.add(k)
+    for depth in range(max_depth):
+        if not frontier:
+            break
+        nxt = []
+        ntrans = 0
+        for r, children in pmap(expand_chunk, chunks(frontier, chunk)):
+            rep.merge(r)
+            for h, k in children:
+                ntrans += 1
+                if k not in seen:
+                    seen.add(k)
+                    nxt.append(h)
+        rep.transitions += ntrans
+        levels.append({'depth': depth + 1, 'new_states': len(nxt), 'transitions': ntrans})
+        if on_level:
+            on_level(levels[-1])
+        if state_cap and len(seen) > state_cap:
+            capped = True
+            frontier = nxt
+            break
+        frontier = nxt
+    rep.states += len(seen)
+    return {'levels': levels, 'capped': capped, 'depth_completed': len(levels), 'open_frontier': len(frontier)}
